@@ -155,7 +155,45 @@ SEEDS.update({
     "C07_3": dict(change="write buffer of Samples capped at 1024 columns per flush while a flush is triggered by the 1025th column (newest column dropped)",
                   needs="more than 2057 stored columns written with flushes less than a second apart",
                   caught_by="one long quickly written chain per run in C07 and C10 (added after this seed was first missed)"),
-})
+    "C08_3": dict(change="deadline of a max_time run kept on the sampler object and cleared only after a complete loop",
+                  needs="same sampler reused: run 1 with max_time ended early (limit, interrupt, exception), run 2 without max_time",
+                  caught_by="second run on the same object after every injected fault (not-reusable-*)"),
+    "C09_3": dict(change="RWMH.autotune clamps the step size only inside the diagnostic-mode block",
+                  needs="autotuning, runs differing in diagnostic_mode, step size driven to zero or below",
+                  caught_by="diagnostic-mode variant of the differential runs"),
+    "C10_3": dict(change="Samples.append buffers the caller's array without copying it",
+                  needs="the caller reusing / modifying the appended array while it is still in the buffer",
+                  caught_by="one work column filled in place and appended every time (added after this seed was first missed)"),
+    "C11_3": dict(change="NPY close() rewrites the sidecar for read-mode objects too (condition moved to the print)",
+                  needs="NPY back end; load_results / with Samples(f) rewrites, print_details then truncates the sidecar",
+                  caught_by="file-system machine: hashes of files and sidecars after every op incl. load_results"),
+    "C12_3": dict(change="per-chain kwargs dict created once and updated in place (keys leak into later chains)",
+                  needs="kwargs as a list of per-chain dicts with differing key sets",
+                  caught_by="HMC/RWMH mixes with per-chain kwargs: chain-raised, deadlock, process-run-differs"),
+    "C13_3": dict(change="Normal.normalize: determinant of a scalar covariance taken as prod(s) = s instead of s^n",
+                  needs="Normal with scalar covariance, more than one dimension, normalisation (explicit or as a Mixture component)",
+                  caught_by="scalar / per-dimension / diagonal-matrix encodings compared after normalize()"),
+    "C14_3": dict(change="Uniform caches its widths; update_bounds (base class) does not refresh them",
+                  needs="update_bounds with a box of another extent, then generate()",
+                  caught_by="first only because a different generator method was called (an oracle that depended on the spelling of the draw -- corrected); now update_bounds before generate and a primitive-independent image check"),
+    "C15_3": dict(change="dense-G / full-covariance back end treats covariances with |off-diagonal| <= 1e-8 as diagonal (allclose default atol)",
+                  needs="a correlated covariance that is small in absolute terms (sigma ~ 1e-5)",
+                  caught_by="covariances on other scales (added after this seed was first missed) with a direct statement oracle"),
+    "C16_3": dict(change="_close_sampler_specific keeps max(current_proposal + 1, 1) history rows",
+                  needs="autotuned run interrupted inside proposal 0",
+                  caught_by="interrupts inside proposal 0 (added after this seed was first missed)"),
+    "C17_3": dict(change="class-level distance cache keyed by the hypocentre bytes only",
+                  needs="two instances with different station geometry evaluated at the same hypocentres",
+                  caught_by="sibling instances evaluated at the same model (added after this seed was first missed; generalised to all distribution checks)"),
+    "C18_3": dict(change="refraction skipped when neighbouring layer velocities are `isclose` (rtol 1e-5)",
+                  needs="neighbouring layers with nearly but not exactly equal velocities (fine gradients)",
+                  caught_by="finely layered velocity gradients (added after this seed was first missed)"),
+    "C19_3": dict(change="gradient_descent pre-allocates its model history with the dtype of the starting model",
+                  needs="a starting model that is not float64 (int64, float32)",
+                  caught_by="integer-dtype starting models (added shortly before this seed arrived)"),
+    "C20_3": dict(change="proposals rounded up to a multiple of exchange_interval before the exchange test",
+                  needs="exchange=False with an exchange_interval that does not divide proposals",
+                  caught_by="exchange_interval handed over with exchange off (added after this seed was first missed)"),})
 
 
 def main():
